@@ -298,10 +298,10 @@ def classify(pb, cpb, path, steps, f, v):
     upto = len(steps) - 1
     if code == "duration":
         a, d = steps[f["step"]][1], steps[f["step"]][3]
+        if f.get("empty"):  # first: no duration can be right for an empty interval, whatever value was chosen
+            return "empty-duration-interval"
         if a.duration.is_left_open() and d == step_eps:
             return "left-open-interval-gets-the-time-step"
-        if f.get("empty"):
-            return "empty-duration-interval"
         upto = f["step"]
     elif "src" in f and str(f["src"]).isdigit():
         upto = int(f["src"])
